@@ -1,1 +1,254 @@
-/-! C16 — property theorems (stub; no obligations yet) -/
+import Ypv.Lemmas.Cli
+/-!
+# C16 — the command-line tools deliver the library's answers and honest exit codes
+
+Theorems about the model of the six `main()` functions (`Model/Cli.lean`).  Every statement is for ALL
+argument records, TTY states, load results and ALL library answers (the evaluator `ev`, the differ,
+the path search `find`, the pairwise merge `m` are arbitrary functions).  PARTIAL BY DESIGN: argparse,
+(de)serialisation and text layout are outside the model; the tie to the real tools is the
+correspondence run of `harness/props/c16.py`.
+-/
+namespace Ypv.Cli
+
+/-! ## yaml-get -/
+
+/-- yaml-get exits 0 exactly when its arguments are accepted, the input loaded, the evaluator raised
+nothing and yielded at least one node. -/
+theorem get_exit_zero_iff_matched (ev : Node → Query) (a : GetArgs) (tty : Bool) (ld : Option Node) :
+    (get ev a tty ld).exit = 0 ↔
+      getErrors a tty = [] ∧ ∃ d, ld = some d ∧ (ev d).err = none ∧ (ev d).nodes ≠ [] :=
+  Lemmas.get_exit_zero_iff ev a tty ld
+
+/-- One output item per matched node, in query order: on success the output is the rendering of the
+evaluator's nodes, position by position; a failing run prints nothing. -/
+theorem get_lines_are_results (ev : Node → Query) (a : GetArgs) (tty : Bool) (ld : Option Node) :
+    ((get ev a tty ld).exit = 0 →
+        ∃ d, ld = some d ∧ (get ev a tty ld).out = (ev d).nodes.map render
+          ∧ (get ev a tty ld).out.length = (ev d).nodes.length
+          ∧ ∀ i : Nat, (get ev a tty ld).out[i]? = ((ev d).nodes[i]?).map render)
+    ∧ ((get ev a tty ld).exit ≠ 0 → (get ev a tty ld).out = []) :=
+  Lemmas.get_lines ev a tty ld
+
+/-- A container is printed as JSON, a scalar as text (null as the NUL character). -/
+theorem get_json_for_containers (n : Node) :
+    (n.isScalar = false → render n = .json n) ∧ (n.isScalar = true → ∃ s, render n = .text s) := by
+  cases n with
+  | scalar a v => cases v <;> simp [render, Node.isScalar]
+  | seq a xs => simp [render, Node.isScalar]
+  | map a xs => simp [render, Node.isScalar]
+  | set a xs => simp [render, Node.isScalar]
+
+/-- The argument-validation decision list of yaml-get: rejected (status 1, nothing printed) exactly
+when there is no input to read, a key file is unreadable, or only one of the two keys is given. -/
+theorem get_args_decision (ev : Node → Query) (a : GetArgs) (tty : Bool) (ld : Option Node) :
+    (getErrors a tty ≠ [] ↔
+        (a.file = none ∧ (a.nostdin = true ∨ tty = true)) ∨ a.priv = .bad ∨ a.pub = .bad
+          ∨ a.priv.isSet ≠ a.pub.isSet)
+    ∧ (getErrors a tty ≠ [] → get ev a tty ld = ⟨[], 1⟩) :=
+  Lemmas.get_args ev a tty ld
+
+/-- File or standard input: the outcome depends on the loaded input only — named file, `-`, and the
+implicit standard input of a non-TTY session agree. -/
+theorem get_stdin_eq_file (ev : Node → Query) (a : GetArgs) (tty tty' : Bool) (ld : Option Node) :
+    get ev { a with file := some .dash } tty ld = get ev { a with file := some .path } tty' ld
+    ∧ (a.nostdin = false →
+        get ev { a with file := none } false ld = get ev { a with file := some .path } tty' ld) :=
+  Lemmas.get_delivery ev a tty tty' ld
+
+/-! ## yaml-diff -/
+
+/-- yaml-diff (parametric in the differ and its entry type) exits 0 exactly when the arguments are
+accepted, both inputs load, a document is selected on each side and every entry of the differ's
+report is SAME. -/
+theorem diff_exit_zero_iff_clean {E : Type} (isSame : E → Bool) (differ : Node → Node → Option (List E))
+    (a : DiffArgs) (l r : Option (List Node)) (o : DiffOut E) (h : diff isSame differ a l r = some o) :
+    o.exit = 0 ↔
+      diffErrors a = [] ∧ ∃ ls rs ld rd rep, l = some ls ∧ r = some rs ∧ pickDoc ls a.lidx = .doc ld
+        ∧ pickDoc rs a.ridx = .doc rd ∧ differ ld rd = some rep ∧ ∀ e ∈ rep, isSame e = true :=
+  Lemmas.diff_exit_zero_iff isSame differ a l r o h
+
+/-- Otherwise it prints the differ's entries: the printed entries are the report filtered by the
+output options, in report order; the status is 0 or 1 and does not depend on what is printed. -/
+theorem diff_prints_report {E : Type} (isSame : E → Bool) (differ : Node → Node → Option (List E))
+    (a : DiffArgs) (ls rs : List Node) (ld rd : Node) (rep : List E)
+    (hv : diffErrors a = []) (hl : pickDoc ls a.lidx = .doc ld) (hr : pickDoc rs a.ridx = .doc rd)
+    (hd : differ ld rd = some rep) :
+    diff isSame differ a (some ls) (some rs)
+      = some ⟨rep.filter (shown isSame a), if rep.all isSame then 0 else 1⟩ :=
+  Lemmas.diff_report isSame differ a ls rs ld rd rep hv hl hr hd
+
+/-- `--quiet`, `--same`, `--onlysame` never change the exit status (as long as the combination is
+accepted). -/
+theorem diff_exit_ignores_output_options {E : Type} (isSame : E → Bool)
+    (differ : Node → Node → Option (List E)) (a : DiffArgs) (q s os : Bool) (l r : Option (List Node))
+    (hv : diffErrors a = []) (hv' : diffErrors { a with quiet := q, same := s, onlysame := os } = []) :
+    (diff isSame differ { a with quiet := q, same := s, onlysame := os } l r).map (·.exit)
+      = (diff isSame differ a l r).map (·.exit) :=
+  Lemmas.diff_exit_indep isSame differ a q s os l r hv hv'
+
+/-- The argument-validation decision list of yaml-diff. -/
+theorem diff_args_decision {E : Type} (isSame : E → Bool) (differ : Node → Node → Option (List E))
+    (a : DiffArgs) (l r : Option (List Node)) :
+    (diffErrors a ≠ [] ↔
+        (a.lhs = .dash ∧ a.rhs = .dash) ∨ (a.quiet = true ∧ (a.same = true ∨ a.onlysame = true))
+          ∨ a.config = .bad ∨ a.priv = .bad ∨ a.pub = .bad)
+    ∧ (diffErrors a ≠ [] → diff isSame differ a l r = some ⟨[], 1⟩) :=
+  Lemmas.diff_args isSame differ a l r
+
+/-! ## yaml-validate -/
+
+/-- yaml-validate exits 0 exactly when every document of every named input loaded and — when the
+session's standard input is read implicitly — every document of it as well; otherwise 2. -/
+theorem validate_exit_zero_iff_all_load (a : ValArgs) (tty : Bool) (loads : List (List Bool))
+    (stdin : List Bool) (hv : valErrors a tty = []) :
+    ((validate a tty loads stdin).exit = 0 ↔
+        (∀ f ∈ loads, ∀ b ∈ f, b = true)
+          ∧ (implicitStdin a.files a.nostdin tty = true → ∀ b ∈ stdin, b = true))
+    ∧ ((validate a tty loads stdin).exit = 0 ∨ (validate a tty loads stdin).exit = 2) :=
+  Lemmas.validate_exit a tty loads stdin hv
+
+/-- The argument-validation decision list of yaml-validate (and of the input part of yaml-merge and
+yaml-paths): rejected with status 1 exactly when nothing can be read or `-` is named twice. -/
+theorem validate_args_decision (a : ValArgs) (tty : Bool) (loads : List (List Bool)) (stdin : List Bool) :
+    (valErrors a tty ≠ [] ↔
+        (a.files = [] ∧ (tty = true ∨ a.nostdin = true)) ∨ manyDash a.files = true)
+    ∧ (valErrors a tty ≠ [] → validate a tty loads stdin = ⟨[], 1⟩) :=
+  Lemmas.validate_args a tty loads stdin
+
+/-! ## yaml-set -/
+
+/-- yaml-set leaves the document the Edit model predicts: a run with exit status 0 read a non-null
+document `d`, passed validation, and wrote (to the file, or to standard output when the document came
+from there) exactly `op.apply d` for the edit `op = setOp …` built from the arguments and the gathered
+addresses (`Ypv.delete`, `setValue` or `setOrCreate` of `Model/Edit.lean`) — or `d` itself when nothing
+was to be applied; `FILE.bak` holds `d` exactly when `--backup` was given.  A run with any other status
+(1 or 20) writes nothing and takes no backup. -/
+theorem set_file_is_model_result (ev : Node → Gather) (a : SetArgs) (tty : Bool)
+    (ld : Option (Option Node)) (segs : Option (List PSeg)) (o : SetOut)
+    (h : set ev a tty ld segs = some o) :
+    (o.exit = 0 →
+        ∃ d, ld = some (some d) ∧ setErrors a tty = [] ∧
+          ((a.src = .none ∧ o.written = some (setDest a, d)) ∨
+            ∃ op d', setOp a (ev d) segs = some op ∧ op.apply d = .ok d' ∧ o.written = some (setDest a, d'))
+          ∧ o.backup = (if a.backup then some d else none))
+    ∧ (o.exit ≠ 0 → o.written = none ∧ o.backup = none ∧ (o.exit = 1 ∨ o.exit = 20)) :=
+  Lemmas.set_result ev a tty ld segs o h
+
+/-- The argument-validation decision list of yaml-set (status 1, nothing read or written). -/
+theorem set_args_decision (ev : Node → Gather) (a : SetArgs) (tty : Bool) (ld : Option (Option Node))
+    (segs : Option (List PSeg)) :
+    (setErrors a tty ≠ [] ↔
+        (a.file = none ∧ (a.nostdin = true ∨ tty = true))
+        ∨ (a.src.truthy = false ∧ a.anchor = .unset ∧ a.tag = false)
+        ∨ (isStdinSrc a.src = true ∧ inStream a.file a.nostdin tty = true)
+        ∨ (a.anchor = .name ∧ a.src ≠ .aliasof ∧ a.src ≠ .mergekey)
+        ∨ (a.backup = true ∧ inStream a.file a.nostdin tty = true)
+        ∨ (savetoSet a = true ∧ a.saveto = some a.change)
+        ∨ a.priv = .bad ∨ a.pub = .bad ∨ a.randomFromShort = true)
+    ∧ (setErrors a tty ≠ [] → set ev a tty ld segs = some (.fail 1)) :=
+  Lemmas.set_args ev a tty ld segs
+
+/-- A delete through the tool is the Edit model's delete of the gathered addresses. -/
+example (g : Gather) (segs : Option (List PSeg)) (a : SetArgs) (h : a.src = .delete) :
+    setOp a g segs = some (.delete g.addrs) := by
+  simp [setOp, h]
+
+/-! ## yaml-paths -/
+
+/-- yaml-paths prints exactly the search results.  For every document `d`, the hits printed are
+(sound) results `find d e` of an accepted `--search` expression `e`, each tagged with that expression;
+(no path twice); (excepted) no path that an accepted `--except` expression finds; (complete) every
+result of an accepted search expression that no accepted except expression finds is printed; and when
+every expression is accepted the document leaves the exit state alone. -/
+theorem paths_lines_are_found (valid : Str → Bool) (find : Node → Str → List Str) (a : PathsArgs) (d : Node) :
+    (∀ h ∈ (pathsDoc valid find a d).1, h.1 ∈ a.search ∧ valid h.1 = true ∧ h.2 ∈ find d h.1)
+    ∧ ((pathsDoc valid find a d).1.map (·.2)).Nodup
+    ∧ (∀ x ∈ a.exc, valid x = true → ∀ p ∈ find d x, p ∉ (pathsDoc valid find a d).1.map (·.2))
+    ∧ (∀ e ∈ a.search, valid e = true → ∀ p ∈ find d e,
+        (∀ x ∈ a.exc, valid x = true → p ∉ find d x) → p ∈ (pathsDoc valid find a d).1.map (·.2))
+    ∧ ((∀ e ∈ a.search, valid e = true) → (∀ e ∈ a.exc, valid e = true) → (pathsDoc valid find a d).2 = none) :=
+  Lemmas.pathsDoc_spec valid find a d
+
+/-- …one input at a time, one document at a time, in stream order: the lines of an input whose
+documents all loaded are the per-document hits tagged with the input's position and the document's
+index (`Lemmas.fileLines`). -/
+theorem paths_file_lines (valid : Str → Bool) (find : Node → Str → List Str) (a : PathsArgs) (fi i : Nat)
+    (ds : List Node) (st : Nat) :
+    (pathsFile valid find a fi i (ds.map some) st).1 = Lemmas.fileLines valid find a fi i ds :=
+  Lemmas.pathsFile_lines valid find a fi i ds st
+
+/-! ## yaml-merge -/
+
+/-- yaml-merge prints or writes the model merge of its inputs.  With accepted arguments, whenever the
+streams the tool reads (the named files in order, then the implicit standard input) all load and the
+first holds a document, the outcome is that of `MultiDoc.mainRun` — the multi-document model of C18,
+for ANY pairwise merge `m` (C05's `mergeWith cfg` in the correspondence): its documents are written,
+to OUTPUT/OVERWRITE or standard output, exactly when its state is 0, and the state is the exit
+status; a crash or uncaught exception of the model is one of the tool. -/
+theorem merge_output_is_model_result {ε : Type} (m : Node → Node → Except ε Node) (cls : ε → MultiDoc.Cls)
+    (a : MergeArgs) (tty : Bool) (loads : List (Option (List Node))) (stdin : Option (List Node))
+    (f0 : List Node) (rest : List (List Node))
+    (hv : mergeErrors a tty = []) (hin : mergeInputs a tty loads stdin = (f0 :: rest).map some) (h0 : f0 ≠ []) :
+    merge m cls a tty loads stdin =
+      match MultiDoc.mainRun m cls a.mode (f0 :: rest) with
+      | none => none
+      | some (.error e) => some (.error e)
+      | some (.ok o) =>
+        if o.state = 0 then some (.ok ⟨0, some o.docs, a.out != .stdout, a.backup⟩)
+        else some (.ok ⟨o.state, none, false, false⟩) :=
+  Lemmas.merge_of_streams m cls a tty loads stdin f0 rest hv hin h0
+
+/-- File or standard input: two accepted invocations with the same mode and destination that read the
+same streams in the same order end alike — whether a stream was named, given as `-`, or was the
+implicit standard input. -/
+theorem merge_stdin_eq_file {ε : Type} (m : Node → Node → Except ε Node) (cls : ε → MultiDoc.Cls)
+    (a a' : MergeArgs) (tty tty' : Bool) (loads loads' : List (Option (List Node)))
+    (stdin stdin' : Option (List Node))
+    (hv : mergeErrors a tty = []) (hv' : mergeErrors a' tty' = [])
+    (hm : a.mode = a'.mode) (ho : a.out = a'.out) (hb : a.backup = a'.backup)
+    (hin : mergeInputs a tty loads stdin = mergeInputs a' tty' loads' stdin') :
+    merge m cls a tty loads stdin = merge m cls a' tty' loads' stdin' :=
+  Lemmas.merge_delivery m cls a a' tty tty' loads loads' stdin stdin' hv hv' hm ho hb hin
+
+/-- The argument-validation decision list of yaml-merge (status 1, nothing read or written). -/
+theorem merge_args_decision {ε : Type} (m : Node → Node → Except ε Node) (cls : ε → MultiDoc.Cls)
+    (a : MergeArgs) (tty : Bool) (loads : List (Option (List Node))) (stdin : Option (List Node)) :
+    (mergeErrors a tty ≠ [] ↔
+        (a.files = [] ∧ (tty = true ∨ a.nostdin = true)) ∨ manyDash a.files = true ∨ a.config = .bad
+          ∨ a.out = .output true ∨ (a.backup = true ∧ a.out.isOverwrite = false))
+    ∧ (mergeErrors a tty ≠ [] → merge m cls a tty loads stdin = some (.ok ⟨1, none, false, false⟩)) :=
+  Lemmas.merge_args m cls a tty loads stdin
+
+/-! ## Witnesses: the hypotheses are met by concrete, non-trivial values -/
+
+/-- `yaml-get -p q file` with two matches, the second a container. -/
+example :
+    get (fun _ => ⟨[.scalar none (.int 1), .seq none [.scalar none (.str "a".toList)]], none⟩)
+        ⟨some .path, false, .unset, .unset⟩ true (some (.map none []))
+      = ⟨[.text "1".toList, .json (.seq none [.scalar none (.str "a".toList)])], 0⟩ := by decide +kernel
+
+/-- a null document yields nothing: exit status 1 (`fixes/C16-3.patch`; the pinned code exits 0) -/
+example : (get (fun _ => ⟨[], none⟩) ⟨some .path, false, .unset, .unset⟩ true (some (.scalar none .null))).exit = 1 := by
+  decide +kernel
+
+/-- only one EYAML key: rejected -/
+example : (get (fun _ => ⟨[], none⟩) ⟨some .path, false, .good, .unset⟩ true (some (.scalar none .null))) = ⟨[], 1⟩ := by
+  decide +kernel
+
+/-- yaml-validate: second file's second document fails -> 2, and the implicit standard input is not read -/
+example : validate ⟨[.path, .path], false, false, false⟩ false [[true], [true, false]] [true]
+    = ⟨[(1, 1, false)], 2⟩ := by decide +kernel
+
+/-- yaml-diff --onlysame over a report with one SAME and one changed entry: prints the SAME one, exits 1 -/
+example : (diff (E := Nat × Bool) (·.2) (fun _ _ => some [(0, true), (1, false)])
+      ⟨.path, .dash, false, false, true, .unset, .unset, .unset, none, none⟩
+      (some [.scalar none (.int 1)]) (some [.scalar none (.int 2)])).map (fun o => (o.printed, o.exit))
+    = some ([(0, true)], 1) := by decide +kernel
+
+/-- yaml-merge reading its only stream from the implicit standard input (`fixes/C16-1.patch`; the pinned
+code raises IndexError here): the stream is condensed like a named file. -/
+example : (merge (ε := Unit) (fun l _ => .ok l) (fun _ => .other)
+      ⟨[], false, .unset, .stdout, false, .condenseAll⟩ false [] (some [.scalar none (.int 1), .scalar none (.int 2)]))
+    = some (.ok ⟨0, some [.scalar none (.int 1)], false, false⟩) := by decide +kernel
+
+end Ypv.Cli
